@@ -18,7 +18,7 @@ func init() {
 	register(&Property{
 		ID:    "C15",
 		Level: "fault_enumeration",
-		Rule: "enumerated grid over a real server: request side sizes {0, mem-1, mem, mem+1, max-1, max, max+1, 4*max} x {declared, chunked} x mem {<,=,>} max x max in {0 = unlimited, n}; response side the same size grid x write chunkings x statuses {200,204,304,500} x methods {GET,HEAD} x 'Content-Length: 0' with a body x grpc-status x handler panic after spilling x hijack after spilling x retry sequences whose earlier attempts spilled; " +
+		Rule: "enumerated grid over a real server: request side sizes {0, mem-1, mem, mem+1, max-1, max, max+1, 4*max} x {declared, chunked} x mem {<,=,>} max x max in {0 = unlimited, n}; response side the same size grid x write chunkings x statuses {200,204,304,500} x methods {GET,HEAD} x 'Content-Length: 0' with a body x grpc-status x handler panic after spilling x a status the real writer refuses (relay panics) x hijack after spilling x retry sequences whose earlier attempts spilled; " +
 			"after the buffer's ServeHTTP has returned (signalled by a wrapper, no sleeping) the private TMPDIR of the child process is listed and must be empty; over-limit requests must get 413 without reaching the handler, over-limit responses an error status with none of the handler's (marked) bytes; non-trivial = grid point at which a temporary file was actually created or a limit was hit; distinct by grid point",
 		Assumptions: []string{"TMPDIR is private to the child process (os.TempDir reads it on every call)", "the listing happens after the deferred closes of Buffer.ServeHTTP have run"},
 		Parts: []Part{
@@ -189,7 +189,7 @@ type c15RespPt struct {
 	Chunk     int
 	Status    int
 	Method    string
-	Special   string // "", cl0, grpc, panic, hijack, retry
+	Special   string // "", cl0, grpc, panic, hijack, retry, badstatus
 }
 
 func c15Response(c *Ctx) {
@@ -212,7 +212,7 @@ func c15Response(c *Ctx) {
 				continue
 			}
 			for _, ch := range []int{0, 1, 7, 333, 70000} {
-				for _, sp := range []string{"", "", "cl0", "grpc", "panic", "hijack", "retry"} {
+				for _, sp := range []string{"", "", "cl0", "grpc", "panic", "hijack", "retry", "badstatus"} {
 					st := 200
 					meth := "GET"
 					grid = append(grid, c15RespPt{mem, max, sz, ch, st, meth, sp})
@@ -271,7 +271,10 @@ func c15Response(c *Ctx) {
 				}
 				return
 			}
-			if p.Status != 200 || p.Special == "retry" {
+			if p.Special == "badstatus" {
+				// a status the real ResponseWriter refuses: relaying it panics in net/http after the body has been buffered
+				w.WriteHeader(1000)
+			} else if p.Status != 200 || p.Special == "retry" {
 				w.WriteHeader(p.Status)
 			}
 			writeBody(w)
@@ -329,7 +332,7 @@ func c15Response(c *Ctx) {
 		}
 		over := p.Max > 0 && p.Size > p.Max
 		expectBodyKind := p.Method != "HEAD" && p.Status != 204 && p.Status != 304 && p.Special != "cl0" && p.Special != "grpc"
-		if over && p.Special != "hijack" && p.Special != "panic" {
+		if over && p.Special != "hijack" && p.Special != "panic" && p.Special != "badstatus" {
 			c.Count("over_limit_responses", 1)
 			if bytes.Contains(raw, marker) {
 				c.Violation("response/over-limit-bytes-leaked", sfmt("response body of %d bytes exceeds the maximum %d but handler bytes reached the client (status %d)", p.Size, p.Max, status), p)
